@@ -2,6 +2,7 @@ package main
 
 import (
 	"fmt"
+	"go/types"
 	"sort"
 	"strings"
 
@@ -306,6 +307,9 @@ func runC08(c *Ctx) {
 		}
 	}
 
+	// ---- P2 strict scalar readers
+	checkStrictScalarReaders(c)
+
 	// ---- I1 IDs
 	{
 		n := 0
@@ -550,4 +554,118 @@ func compareCalls(want []SchemaField, calls []codecCall, writer bool, strict str
 		}
 	}
 	return true, fmt.Sprintf("%d fields", len(want))
+}
+
+// checkStrictScalarReaders (C08.P2): a scalar reader called in strict mode hands back every
+// error of the field-key check — a field that is missing (also at the very end of the data)
+// or out of order is an error, never the zero value. The lenient mode swallows exactly the
+// two "field is not here" errors. Decided by interpreting the reader (and whatever helpers it
+// passes the error to) over the abstract inputs {check failed, which error, strict}.
+func checkStrictScalarReaders(c *Ctx) {
+	p := c.P
+	n := 0
+	for _, name := range []string{"ReadUInt", "ReadInt", "ReadInt32", "ReadBool", "ReadBytes", "ReadString", "ReadDecodable"} {
+		fn := c.Anchor("pkg/codec.(*Reader)." + name)
+		if fn == nil {
+			continue
+		}
+		var strictParam *ssa.Parameter
+		for _, prm := range fn.Params {
+			if b, ok := prm.Type().Underlying().(*types.Basic); ok && b.Kind() == types.Bool {
+				strictParam = prm
+			}
+		}
+		checks := CallsIn(fn, "(*codec.Reader).check")
+		if strictParam == nil || len(checks) != 1 {
+			c.Require("C08.P2 strict-missing-field", FuncKey(fn), p.Pos(fn.Pos()), "one field-key check and a strict flag", false, fmt.Sprintf("checks=%d", len(checks)))
+			continue
+		}
+		n++
+		chk := checks[0].Call.Value()
+		errIdx := fn.Signature.Results().Len() - 1
+		kernel := func(e *Env) (bool, string) {
+			var special func(v ssa.Value, eval func(ssa.Value) AVal) (AVal, bool)
+			special = func(v ssa.Value, eval func(ssa.Value) AVal) (AVal, bool) {
+				switch x := v.(type) {
+				case *ssa.Parameter:
+					if x == strictParam {
+						return AVal{K: 'b', B: e.B("strict")}, true
+					}
+				case *ssa.Extract:
+					if x.Tuple == ssa.Value(chk) {
+						if x.Index == 0 {
+							return AVal{K: 'b', B: !e.B("checkFailed")}, true
+						}
+						if e.B("checkFailed") {
+							return AVal{K: 'o', N: 1}, true
+						}
+						return AVal{K: 'o', N: -1}, true
+					}
+					if cl, ok := x.Tuple.(*ssa.Call); ok {
+						if a, opaque := special(cl, eval); opaque && a.N == 2 {
+							// a later reading step: taken to succeed
+							switch classify(x.Type()) {
+							case 'b':
+								return AVal{K: 'b'}, true
+							case 'i', 'y':
+								return AVal{K: classify(x.Type())}, true
+							}
+							if types.Identical(x.Type(), types.Universe.Lookup("error").Type()) {
+								return AVal{K: 'o', N: -1}, true
+							}
+							return AVal{K: 'o', N: 2}, true
+						}
+					}
+				case *ssa.Call:
+					cn := CalleeName(x.Common())
+					if cn == "errors.Is" && len(x.Common().Args) == 2 {
+						t := T(x.Common().Args[1]).String()
+						switch {
+						case strings.HasSuffix(t, "codec.ErrFieldNumberNotFound"):
+							return AVal{K: 'b', B: e.B("checkFailed") && e.B("notFound")}, true
+						case strings.HasSuffix(t, "codec.ErrUnexpectedFieldNumber"):
+							return AVal{K: 'b', B: e.B("checkFailed") && !e.B("notFound") && e.B("unexpected")}, true
+						}
+						return AVal{K: 'b'}, true
+					}
+					// functions the error is handed to are interpreted; everything else is a later reading step
+					if g := x.Common().StaticCallee(); g != nil && IsOwn(g) && len(g.Blocks) > 0 {
+						for i := 0; i < g.Signature.Params().Len(); i++ {
+							if types.Identical(g.Signature.Params().At(i).Type(), types.Universe.Lookup("error").Type()) {
+								return AVal{}, false
+							}
+						}
+					}
+					if x != chk {
+						if types.Identical(x.Type(), types.Universe.Lookup("error").Type()) {
+							return AVal{K: 'o', N: -1}, true
+						}
+						return AVal{K: 'o', N: 2}, true
+					}
+				}
+				return AVal{}, false
+			}
+			r := &pathRun{env: e, special: special, want: []int{errIdx}}
+			var args []pval
+			for i := range fn.Params {
+				args = append(args, pval{AVal{K: 'o', N: 2}, fmt.Sprintf("p%d", i)})
+			}
+			res := r.run(fn, args)
+			if r.err != "" || len(res) <= errIdx || res[errIdx].K != 'o' {
+				return false, "cannot interpret: " + r.err
+			}
+			return res[errIdx].N != -1, ""
+		}
+		spec := func(e *Env) bool {
+			notHere := e.B("notFound") || e.B("unexpected")
+			return e.B("checkFailed") && (e.B("strict") || !notHere)
+		}
+		ev, atoms, dis, err := exhaust(kernel, spec, 0, nil)
+		if err != "" {
+			c.Undecided("C08.P2 strict-missing-field", FuncKey(fn), err)
+			continue
+		}
+		c.Require("C08.P2 strict-missing-field", FuncKey(fn), p.Pos(fn.Pos()), fmt.Sprintf("an error of the field-key check is returned iff strict, or it is not one of the two 'field is not here' errors — over %v (%d abstract inputs)", atoms, ev), dis == "" && len(atoms) >= 3, dis)
+	}
+	c.MinInstances("C08.P2 strict-missing-field", n, 7)
 }
